@@ -142,7 +142,12 @@ type Server struct {
 	pauses  []*Pause
 	// JournalOn can be switched off for throughput (C20 soak).
 	journalOn bool
+	bufReuse  bool
 }
+
+// SetBufferReuse switches the buffer-reuse mode of result sets on or off.
+func (s *Server) SetBufferReuse(on bool) { s.mu.Lock(); s.bufReuse = on; s.mu.Unlock() }
+func (s *Server) bufferReuse() bool      { s.mu.Lock(); defer s.mu.Unlock(); return s.bufReuse }
 
 // NewServer creates a server advertising the given version (e.g. "8.0.30").
 func NewServer(version string) *Server {
